@@ -177,7 +177,8 @@ def seedFromMeta : List Nat → Except PyErr (List Nat)
 
 /-- one key of `CheckKeypairDenylist.Check`: `(flagged, attached factors)`.
 `table` is `dict(GetKeypairData().table)` as an association list; `gen seed bits` is the
-oracle for `Generator(seed).generate_key(bits)`. -/
+oracle for `Generator(seed).generate_key(bits)`, which the real code calls (and which returns)
+for even `bits` only: `C06.keypair_gen_even_only`. -/
 def keypairStep (table : List (Nat × List Nat)) (n : Nat)
     (gen : List Nat → Nat → Nat × Nat) : Except PyErr (Bool × List Nat) :=
   match keypairMsb n with
@@ -186,6 +187,8 @@ def keypairStep (table : List (Nat × List Nat)) (n : Nat)
     match table.lookup msb with
     | none => .ok (false, [])
     | some metadata =>
+      -- `and n.bit_length() % 2 == 0` (D21): the generator never returns for an odd size
+      if bitLength n % 2 ≠ 0 then .ok (false, []) else
       match seedFromMeta metadata with
       | .error e => .error e
       | .ok seed =>
@@ -201,6 +204,7 @@ def keypairSeed (table : List (Nat × List Nat)) (n : Nat) : Except PyErr (Optio
     match table.lookup msb with
     | none => .ok none
     | some metadata =>
+      if bitLength n % 2 ≠ 0 then .ok none else
       match seedFromMeta metadata with
       | .error e => .error e
       | .ok seed => .ok (some seed)
